@@ -166,6 +166,7 @@ type RefPeer struct {
 	PexAnnounced   map[string]bool // what the system has announced to us over PEX and not dropped
 	PexMsgs        int
 	writing        bool
+	sentMisaddressed bool // we sent data under a wrong address: the system may take it for the answer to another request
 	lastSend       time.Time
 	wq             simrt.WaitQ
 	OnEvent func(ev string)
@@ -878,10 +879,12 @@ func (p *RefPeer) answer(r *sysReq) {
 		p.Send(refwire.Piece{Index: m.Index, Begin: m.Begin, Data: append(bytes.Clone(data), extra...)})
 		done()
 	case AnsMisplaced:
+		p.sentMisaddressed = true
 		simrt.Fault("peer-misplaced-block")
 		p.Send(refwire.Piece{Index: m.Index, Begin: m.Begin + 16384*uint32(1+p.W.st.Choice(3)), Data: data})
 		done()
 	case AnsWrongPiece:
+		p.sentMisaddressed = true
 		simrt.Fault("peer-wrong-piece")
 		o := uint32(p.W.st.Choice(p.Spec.Geo.NPieces))
 		p.Send(refwire.Piece{Index: o, Begin: m.Begin, Data: data})
@@ -1048,7 +1051,7 @@ func (p *RefPeer) conform(m refwire.Message) {
 				return
 			}
 		}
-		if r := p.Outstanding[blk{i, m.Begin}]; r != nil {
+		if r := p.Outstanding[blk{i, m.Begin}]; r != nil && !p.sentMisaddressed {
 			p.Viol("C11", "request-duplicate", "", "%s: request (%d, %d) is already outstanding on this connection", p.Cfg.Name, i, m.Begin)
 			return
 		}
@@ -1074,7 +1077,17 @@ func (p *RefPeer) conform(m refwire.Message) {
 		if last == nil {
 			p.Viol("C11", "cancel-unknown", "", "%s: cancel (%d, %d, %d) names no request received on this connection", p.Cfg.Name, m.Index, m.Begin, m.Length)
 		} else if last.Answered && (last.Kind == AnsRight || last.Kind == AnsReject || last.Kind == AnsDuplicate) && ep > last.AnswerEpoch {
-			p.Viol("C11", "cancel-answered", "", "%s: cancel (%d, %d) for a request answered before the last quiescent point", p.Cfg.Name, m.Index, m.Begin)
+			hist := ""
+			for _, r := range p.ReqLog {
+				if r.Req.Index == m.Index && r.Req.Begin == m.Begin {
+					hist += fmt.Sprintf(" [received epoch %d, answered=%v with %s at epoch %d, cancelled=%v]", r.Epoch, r.Answered, ansNames[r.Kind], r.AnswerEpoch, r.Cancelled)
+				}
+			}
+			recent := ""
+			for _, rm := range p.Recv[max(0, len(p.Recv)-14):] {
+				recent += fmt.Sprintf(" {e%d %v %s}", rm.Epoch, rm.At, briefMsg(rm.Msg))
+			}
+			p.Viol("C11", "cancel-answered", "", "%s: cancel (%d, %d) at epoch %d for a request answered before the last quiescent point; requests for this block on this connection:%s; last messages received:%s", p.Cfg.Name, m.Index, m.Begin, ep, hist, recent)
 		}
 	case refwire.Bitfield:
 		if len(m.Bits) != (np+7)/8 {
